@@ -48,7 +48,7 @@ def cuts(rnd, enc):
     starts = [i for i in range(1, n) if t[i - 1] in " \n" and t[i] not in " \n"]
     if not starts:
         return []
-    return sorted({rnd.choice(starts) for _ in range(rnd.randint(1, 3))})
+    return sorted({rnd.choice(starts) for _ in range(rnd.randint(1, 5))})
 
 
 def dec_text(enc):
